@@ -22,6 +22,8 @@ fn gen_sequence(rng: &mut Rng, srv: &[u8], len: usize) -> Vec<(usize, Vec<u8>)> 
                 1 => valid_ietf(rng, Some(srv)).data,
                 _ => hostile(rng, srv).data,
             };
+            // 1 in 50: the datagram arrives with UDP source port 0 (the reply to it cannot be sent)
+            let s = if rng.chance(1, 50) { SPOOF_PORT0 } else { s };
             (s, d)
         })
         .collect()
@@ -106,7 +108,10 @@ pub fn run(ctx: &Ctx, out: &mut Out, prop: &str) {
             } as usize;
             let sends = gen_sequence(&mut rng, &srv, len);
             rounds.push(sends.clone());
-            let r = d.round(sends, false);
+            // with fault injection off every valid request of the sequence must be answered too,
+            // not only the sentinel after it
+            let strict = !c20 && cfg.fault_percentage == 0;
+            let r = d.round(sends, strict);
             let mut rj = round_replay(&cfg, &rounds);
             rj["log_level"] = json!(level.to_string());
             let rp = || rj.clone();
@@ -138,6 +143,23 @@ pub fn run(ctx: &Ctx, out: &mut Out, prop: &str) {
                     out.inconclusive("server panicked (C08's verdict)");
                 }
                 break;
+            }
+            if strict && r.panic.is_none() && !r.drops_moved {
+                let mut answered = vec![false; r.sent.len()];
+                for rep in &r.replies {
+                    if let Some(i) = rep.matched {
+                        answered[i] = true;
+                    }
+                }
+                let missing = r.sent.iter().enumerate().filter(|(i, s)| s.expect == crate::refimpl::req::Expect::Must && !answered[*i]).count();
+                out.obs("valid_requests_in_sequences", r.sent.iter().filter(|s| s.expect == crate::refimpl::req::Expect::Must).count() as i64);
+                if missing > 0 || r.late_replies > 0 {
+                    out.violation(
+                        &format!("C08 valid-requests-unanswered-after-hostile-datagrams{}", if r.late_replies > 0 { " (stranded until further traffic)" } else { "" }),
+                        &format!("{} valid requests of the sequence got no correct reply ({} replies arrived only after later traffic); log level {}", missing, r.late_replies, level),
+                        rp(),
+                    );
+                }
             }
             if !c20 {
                 if r.sentinel_verified {
